@@ -6,7 +6,22 @@ import (
 )
 
 // dumpTerm prints the outcome term of rel:Type.Method or rel:Func.
+func dumpRoles(w *World) {
+	for _, v := range variants(w) {
+		fmt.Printf("%s: cpu=%v run=%v flush=%v isEmpty=%v problems=%v\n", v.name, v.cpu != nil, v.run != nil, v.flush != nil, v.isEmpty != nil, v.problems)
+		for _, f := range v.fields {
+			if f.isBus || f.isUnit {
+				fmt.Printf("    %-22s %-12s roles=%v\n", f.name, f.kind, sortedKeys(f.roles))
+			}
+		}
+	}
+}
+
 func dumpTerm(w *World, spec string) {
+	if spec == "roles" {
+		dumpRoles(w)
+		return
+	}
 	parts := strings.SplitN(spec, ":", 2)
 	if len(parts) != 2 {
 		fmt.Println("want pkg:Type.Method")
